@@ -123,8 +123,54 @@ def run(ids, tier):
     return 0
 
 
+def rebase(ids):
+    """Re-create patches that no longer apply to /repo HEAD (3-way merge, then GNU patch with fuzz)."""
+    ids = ids or sorted(d for d in os.listdir(SEEDED) if os.path.isdir(os.path.join(SEEDED, d)))
+    for sid in ids:
+        patch = os.path.join(SEEDED, sid, "patch.diff")
+        if sh(["git", "-C", "/repo", "apply", "--check", patch]).returncode == 0:
+            continue
+        wt = tempfile.mkdtemp(prefix="seedrb-", dir="/tmp")
+        os.rmdir(wt)
+        sh(["git", "-C", "/repo", "worktree", "add", "--detach", wt, "HEAD"])
+        try:
+            r = sh(["git", "-C", wt, "apply", "--3way", patch])
+            conflict = sh(f"grep -rl '^<<<<<<< ' {wt}/src || true").stdout.strip()
+            if r.returncode != 0 or conflict:
+                sh(["git", "-C", wt, "checkout", "--", "."])
+                sh(["git", "-C", wt, "reset", "-q", "--hard"])
+                r = sh(f"cd {wt} && patch -p1 --fuzz=3 --no-backup-if-mismatch < {patch}")
+                if r.returncode != 0:
+                    print(sid, "NEEDS MANUAL REBASE:", (r.stdout + r.stderr)[-300:].replace("\n", " | "))
+                    continue
+            sh(["git", "-C", wt, "reset", "-q"])
+            d = sh(["git", "-C", wt, "diff"]).stdout
+            if not d.strip():
+                print(sid, "rebase produced an empty diff (change already in HEAD?)")
+                continue
+            shutil.copy(patch, patch + ".orig")
+            open(patch, "w").write(d)
+            res = verify(os.path.join(SEEDED, sid))
+            if res["ok"]:
+                os.remove(patch + ".orig")
+                meta = json.load(open(os.path.join(SEEDED, sid, "meta.json")))
+                meta.setdefault("verified", {})["rebased_onto"] = sh(["git", "-C", "/repo", "rev-parse", "--short", "HEAD"]).stdout.strip()
+                json.dump(meta, open(os.path.join(SEEDED, sid, "meta.json"), "w"), indent=1)
+                print(sid, "rebased and verified")
+            else:
+                shutil.move(patch + ".orig", patch)
+                print(sid, "rebased patch FAILED verification:", {k: res.get(k) for k in ("demo_unmodified_exit", "demo_modified_exit", "suite")})
+        finally:
+            sh(["git", "-C", "/repo", "worktree", "remove", "--force", wt])
+            shutil.rmtree(wt, ignore_errors=True)
+            sh(["git", "-C", "/repo", "worktree", "prune"])
+    return 0
+
+
 if __name__ == "__main__":
     cmd = sys.argv[1]
+    if cmd == "rebase":
+        sys.exit(rebase(sys.argv[2:]))
     if cmd == "verify":
         r = verify(sys.argv[2])
         print(json.dumps(r, indent=1))
